@@ -26,7 +26,7 @@ def label(s):
 
 
 def norm_value(lines):
-    t = ' '.join(lines)
+    t = ' '.join(l[1] if isinstance(l, tuple) else l for l in lines)
     return re.sub(r'[ \t\r\n]+', ' ', t).strip(' ')
 
 
@@ -59,7 +59,12 @@ def gen_case(rng):
             atoms = [w()] + [rng.choice(VAL_ATOMS) if rng.random() < 0.6 else w() for _ in range(rng.randint(0, 4))] + [w()]
             t = ' '.join(atoms)
             if li > 0:
-                t = t.replace(':', ';')         # a continuation line must not look like a new key
+                ind = rng.choice(['    ', '\t', '  ', ' ', '   ', ''])
+                if ind == '':
+                    t = t.replace(':', ';')         # an unindented continuation line must not look like a new key
+                elif rng.random() < 0.3:
+                    t = 'Attn: ' + t                # ... an indented one may: it is still part of the value
+                t = (ind, t)
             lines.append(t)
         entries.append((k, lines))
     c.entries = entries
@@ -72,8 +77,8 @@ def gen_case(rng):
         sep = rng.choice([': ', ': ', ':\t', ':  ', ': \t ', ':'])
         first = k + sep + lines[0] + rng.choice(['', '', ' ', '  ', '\t'])
         out.append(first)
-        for l in lines[1:]:
-            out.append(rng.choice(['    ', '\t', '  ', '']) + l + rng.choice(['', ' ']))
+        for ind, l in lines[1:]:
+            out.append(ind + l + rng.choice(['', ' ']))
     if yaml:
         out.append('---')
     block = eol.join(out)
@@ -261,6 +266,20 @@ def check_complete_html(r, s, c):
                           dict(requests=[D.req_to_json('asan', 'CONVERT', 0, D.EXT_CLI | D.EXT['COMPLETE'], 0, 0 | (1 << 4), [c.src])]), core.show(head, 600))
                 return
             pos = j
+        # the value arrives exactly: the content attribute, un-escaped, is the value metavalue_for_key reports
+        if k != 'title':
+            m = re.search(r'^\s*<meta name="%s" content="(.*)"\s*/>\s*$' % re.escape(k), head, re.M)
+            if m:
+                if re.search(r'["<]|&(?!amp;|lt;|gt;|quot;|#\d+;|#x[0-9a-fA-F]+;)', m.group(1)):
+                    r.violate('complete-html:value-unescaped', 'the <meta> element for %r carries the value unescaped: %r' % (k, m.group(1)[:80]),
+                              dict(requests=[D.req_to_json('asan', 'CONVERT', 0, D.EXT_CLI | D.EXT['COMPLETE'], 0, 0 | (1 << 4), [c.src])]), core.show(head, 600))
+                    return
+                got = m.group(1).replace('&lt;', '<').replace('&gt;', '>').replace('&quot;', '"').replace('&#39;', "'").replace('&amp;', '&')
+                r.stats['complete_html_meta_values_compared'] += 1
+                if got != c.values[k]:
+                    r.violate('complete-html:value-differs', 'the <meta> element for %r carries %r, the value is %r' % (k, got[:80], c.values[k][:80]),
+                              dict(requests=[D.req_to_json('asan', 'CONVERT', 0, D.EXT_CLI | D.EXT['COMPLETE'], 0, 0 | (1 << 4), [c.src])]), core.show(head, 600))
+                    return
     r.stats['complete_documents_checked'] += 1
 
 
